@@ -17,6 +17,8 @@ type EVal struct {
 	Addr    *Addr
 	Untyped bool // integer / nil literal without a Go type
 	IsNil   bool
+	// index variables bound to absolute positions (see quant): value == AbsK - AbsOff + AbsAdd
+	AbsK, AbsOff, AbsAdd string
 }
 
 type skMode int
@@ -53,6 +55,11 @@ type Eval struct {
 	pats     []string
 	depth    int
 	li       *loopInfo
+
+	chainVars, chainRng, chainNames []string
+	inChain                         int
+	probeName, probeOff             string
+	probing                         int
 }
 
 func (ev *Eval) heap() *Heap {
@@ -183,7 +190,18 @@ func (ev *Eval) rv(v EVal) []string {
 	if v.Terms != nil || v.Addr == nil {
 		return v.Terms
 	}
-	return ev.vc.load(*ev.heap(), *v.Addr, v.T)
+	terms := ev.vc.load(*ev.heap(), *v.Addr, v.T)
+	// well-typedness facts about the loaded value (only for closed terms)
+	closed := true
+	for _, t := range terms {
+		if strings.Contains(t, "q_") {
+			closed = false
+		}
+	}
+	if closed {
+		ev.vc.assumeLoadRanges(terms, v.T, *ev.heap())
+	}
+	return terms
 }
 
 func (ev *Eval) formula(e Expr, m skMode) (string, error) {
@@ -257,7 +275,7 @@ func (ev *Eval) formula(e Expr, m skMode) (string, error) {
 	return t[0], nil
 }
 
-func (ev *Eval) quant(q *EQuant, m skMode) (string, error) {
+func (ev *Eval) quantUnused(q *EQuant, m skMode) (string, error) {
 	ev.vc.root().n++
 	name := fmt.Sprintf("q_%s_%d", sanitize(q.Var), ev.vc.root().n)
 	sortS := "Int"
@@ -309,11 +327,66 @@ func (ev *Eval) quant(q *EQuant, m skMode) (string, error) {
 			bm = m // nested same-kind quantifiers keep their mode
 		}
 	}
-	body, err := ev.formula(q.Body, bm)
+	var body string
+	var err error
+	innerQ, chain := q.Body.(*EQuant)
+	if chain && !skolem && innerQ.All == q.All {
+		// same-kind nested quantifier: merge into one binder list with a multi-pattern
+		ev.chainVars = append(ev.chainVars, "("+name+" "+sortS+")")
+		ev.chainRng = append(ev.chainRng, rng)
+		ev.chainNames = append(ev.chainNames, name)
+		ev.inChain++
+		body, err = ev.formula(q.Body, bm)
+		ev.inChain--
+		ev.pats = savedPats
+		return body, err
+	}
+	body, err = ev.formula(q.Body, bm)
 	pats := ev.pats
 	ev.pats = savedPats
 	if err != nil {
 		return "", err
+	}
+	if !skolem && len(ev.chainVars) > 0 {
+		vars := append(append([]string{}, ev.chainVars...), "("+name+" "+sortS+")")
+		rngs := append(append([]string{}, ev.chainRng...), rng)
+		names := append(append([]string{}, ev.chainNames...), name)
+		ev.chainVars, ev.chainRng, ev.chainNames = nil, nil, nil
+		// multi-pattern: one term per variable
+		var mp []string
+		okAll := true
+		used := map[string]bool{}
+		for _, vn := range names {
+			found := ""
+			for _, p := range pats {
+				if containsIdent(p, vn) {
+					found = p
+					break
+				}
+			}
+			if found == "" {
+				okAll = false
+				break
+			}
+			if !used[found] {
+				used[found] = true
+				mp = append(mp, found)
+			}
+		}
+		var inner string
+		if q.All {
+			inner = implies(and(rngs...), body)
+		} else {
+			inner = and(append(rngs, body)...)
+		}
+		if okAll {
+			inner = "(! " + inner + " :pattern (" + strings.Join(mp, " ") + "))"
+		}
+		kw := "forall"
+		if !q.All {
+			kw = "exists"
+		}
+		return "(" + kw + " (" + strings.Join(vars, " ") + ") " + inner + ")", nil
 	}
 	if skolem {
 		ev.skolems = append(ev.skolems, "(declare-const "+name+" "+sortS+")")
@@ -679,7 +752,18 @@ func (ev *Eval) index(base, idx EVal) (EVal, error) {
 	switch u := base.T.Underlying().(type) {
 	case *types.Slice:
 		s := ev.rv(base)[0]
-		a := Addr{"(s_obj " + s + ")", "(s_slot " + s + ")", plus("(s_off "+s+")", it[0])}
+		off := "(s_off " + s + ")"
+		if ev.probeName != "" && ev.probeOff == "" && containsIdent(it[0], ev.probeName) {
+			ev.probeOff = off
+		}
+		ix := plus(off, it[0])
+		if idx.AbsK != "" && idx.AbsOff == off {
+			ix = plus(idx.AbsK, idx.AbsAdd)
+			if idx.AbsAdd == "" {
+				ix = idx.AbsK
+			}
+		}
+		a := Addr{"(s_obj " + s + ")", "(s_slot " + s + ")", ix}
 		// pattern candidates: the selects that read this element
 		for i, l := range ev.vc.L.Leaves(u.Elem()) {
 			ev.pats = append(ev.pats, sel(sel(sel(ev.heap().H[l.Sort], a.Obj), plus(a.Slot, num(int64(i)))), a.Idx))
@@ -767,7 +851,26 @@ func (ev *Eval) binary(x *EBin) (EVal, error) {
 		if isStr && x.Op == "+" {
 			return EVal{T: ty, Terms: []string{"(str_concat " + p + " " + q + ")"}}, nil
 		}
-		return EVal{T: intT, Terms: []string{"(" + x.Op + " " + p + " " + q + ")"}, Untyped: true}, nil
+		r := EVal{T: intT, Terms: []string{"(" + x.Op + " " + p + " " + q + ")"}, Untyped: true}
+		if a.AbsK != "" && b.AbsK == "" && (x.Op == "+" || x.Op == "-") {
+			r.AbsK, r.AbsOff = a.AbsK, a.AbsOff
+			add := q
+			if x.Op == "-" {
+				add = "(- " + q + ")"
+			}
+			if a.AbsAdd != "" {
+				add = "(+ " + a.AbsAdd + " " + add + ")"
+			}
+			r.AbsAdd = add
+		} else if b.AbsK != "" && a.AbsK == "" && x.Op == "+" {
+			r.AbsK, r.AbsOff = b.AbsK, b.AbsOff
+			add := p
+			if b.AbsAdd != "" {
+				add = "(+ " + b.AbsAdd + " " + add + ")"
+			}
+			r.AbsAdd = add
+		}
+		return r, nil
 	case "/":
 		return EVal{T: intT, Terms: []string{"(tdiv " + p + " " + q + ")"}, Untyped: true}, nil
 	case "%":
